@@ -43,6 +43,10 @@ enum Step {
     DropPolled(u64),
     ResetFresh(u64, u64),
     ResetPolled(u64, u64),
+    /// sleep(d0) polled once, then another sleep(w), then reset to (step start + d1) and await
+    ResetAfterWait(u64, u64, u64),
+    /// interval(period): two ticks, reset() in the instant of the second tick, third tick
+    IntervalReset(u64),
     /// interval(period), behaviour, busy gap between the 3 ticks
     Interval(u64, Beh, u64),
     /// wait for the message-fed flag
@@ -128,6 +132,25 @@ async fn run_steps(task: usize, steps: Vec<Step>, log: Log, mut flag: watch::Rec
                 s.as_mut().reset(SimTime::now() + ms(d1));
                 s.await;
                 push(0);
+            }
+            Step::ResetAfterWait(d0, w, d1) => {
+                let begin = SimTime::now();
+                let s = sleep(ms(d0));
+                tokio::pin!(s);
+                let _ = poll_once(s.as_mut()).await;
+                sleep(ms(w)).await;
+                s.as_mut().reset(begin + ms(d1));
+                s.await;
+                push(0);
+            }
+            Step::IntervalReset(p) => {
+                let mut iv = interval(ms(p));
+                iv.tick().await;
+                iv.tick().await;
+                log.lock().unwrap().push((task, i, now_ms(), 1));
+                iv.reset();
+                let t = iv.tick().await;
+                log.lock().unwrap().push((task, i, now_ms(), 100_000 + (t.as_nanos() / 1_000_000) as u64));
             }
             Step::Interval(p, beh, gap) => {
                 let mut iv = interval(ms(p));
@@ -278,9 +301,26 @@ fn reference(task: usize, steps: &[Step], origin: u64, stop: Option<u64>) -> Ref
                 if d0 > 0 && d0 != d1 {
                     cancelled_pending.push(now + d0);
                 }
+                let _ = d0;
                 live_deadline = Some(now + d1);
                 now += d1;
                 emit!(i, 0);
+            }
+            Step::ResetAfterWait(d0, w, d1) => {
+                out.max_deadline = out.max_deadline.max(now + d0).max(now + w).max(now + d1);
+                let begin = now;
+                now += w;
+                now = now.max(begin + d1);
+                live_deadline = None;
+                emit!(i, 0);
+            }
+            Step::IntervalReset(p) => {
+                live_deadline = None;
+                now += p;
+                out.max_deadline = out.max_deadline.max(now + p);
+                emit!(i, 1);
+                now += p;
+                emit!(i, 100_000 + now);
             }
             Step::Interval(p, beh, gap) => {
                 let mut deadline = now;
@@ -479,13 +519,20 @@ fn alphabet(tier: Tier) -> Vec<Step> {
         for &e in &ds {
             a.push(Step::Timeout(d, e));
             a.push(Step::Sel(d, e));
-            if d != e {
-                a.push(Step::ResetFresh(d, e));
-                a.push(Step::ResetPolled(d, e));
-            }
+            a.push(Step::ResetFresh(d, e));
+            a.push(Step::ResetPolled(d, e));
         }
     }
     a.push(Step::WaitFlag);
+    for d0 in [S, 3 * S] {
+        for w in [S, 2 * S] {
+            for d1 in [0, S, 2 * S, 3 * S] {
+                a.push(Step::ResetAfterWait(d0, w, d1));
+            }
+        }
+    }
+    a.push(Step::IntervalReset(S));
+    a.push(Step::IntervalReset(2 * S));
     for p in [S, 2 * S] {
         for beh in [Beh::Burst, Beh::Delay, Beh::Skip] {
             for gap in [0u64, p / 2, p + 3, p + 6, 2 * p + 6, 5 * S] {
@@ -497,6 +544,22 @@ fn alphabet(tier: Tier) -> Vec<Step> {
     a
 }
 
+/// core steps used for the largest product of the quick tier
+fn core(alpha: &[Step]) -> Vec<Step> {
+    alpha
+        .iter()
+        .copied()
+        .filter(|s| match s {
+            Step::Interval(p, _, g) => *p == S && (*g == 0 || *g == S + 6),
+            Step::ResetAfterWait(d0, w, _) => *d0 == 3 * S && *w == S,
+            Step::Timeout(d, e) | Step::Sel(d, e) | Step::ResetFresh(d, e) | Step::ResetPolled(d, e) => *d <= 2 * S && *e <= 2 * S,
+            Step::TimeoutNever(d, _) | Step::SelFar(d, _) | Step::DropPolled(d) | Step::Sleep(d) | Step::TimeoutFlag(d) => *d <= 2 * S,
+            Step::Until(t) => *t <= 4 * S,
+            _ => true,
+        })
+        .collect()
+}
+
 impl Property for C05 {
     fn id(&self) -> &'static str {
         "C05"
@@ -504,12 +567,12 @@ impl Property for C05 {
     fn rule(&self, tier: Tier) -> String {
         let n = alphabet(tier).len();
         format!(
-            "step alphabet of {n} steps (sleep, sleep_until, timeout over sleep / pending / far-future / message-fed flag, biased select of two sleeps and of a far-future sleep in both branch orders, create-poll-drop, reset before/after first poll, interval x {{Burst, Delay, Skip}} x busy gaps {{0, p/2, p+3ms, p+6ms, 2p+6ms, 5s}}, wait for a message-fed flag; delays 0..3 s); \
-             enumerated completely: one task with every script of 1..={} steps; two tasks (1 step | 2 steps) for every combination{}; the same scripts of up to 2 steps with the module shut down at 1.25 s and restarted 1 s later; \
+            "step alphabet of {n} steps (sleep, sleep_until, timeout over sleep / pending / far-future / message-fed flag, biased select of two sleeps and of a far-future sleep in both branch orders, create-poll-drop, reset before/after first poll (also to the same, an earlier or an already passed deadline, and after another timer ran), interval reset, interval x {{Burst, Delay, Skip}} x busy gaps {{0, p/2, p+3ms, p+6ms, 2p+6ms, 5s}}, wait for a message-fed flag; delays 0..3 s); \
+             enumerated completely: one task with every script of 1..={} steps; two tasks (1 step | 1 step) for every combination; two tasks (1 step | 2 steps) over {}; the same scripts of up to 2 steps with the module shut down at 1.25 s and restarted 1 s later; \
              oracle: reference interpreter with exact virtual time: every await returns at exactly the computed instant with the computed value, every joined task finishes, run end in [last completion, latest finite deadline registered]; a message-fed future becoming ready at exactly a competing deadline accepts both results; \
              non-trivial = script in which a live timer has to fire behind a cancelled / dropped / already-fired one",
             tier.pick(2, 3),
-            tier.pick("", "; three tasks (1|1|1)")
+            tier.pick("(core sub-alphabet: delays up to 2 s, two interval variants) | (full alphabet)", "the full alphabet, plus three tasks (1|1|1) over the core sub-alphabet")
         )
     }
     fn assumptions(&self) -> Vec<String> {
@@ -548,17 +611,30 @@ impl Property for C05 {
                 if ctx.mine() {
                     cases.push(Case { tasks: vec![vec![*a], vec![*b]], restart: None });
                 }
-                for c in &alpha {
-                    if ctx.mine() {
-                        cases.push(Case { tasks: vec![vec![*a], vec![*b, *c]], restart: None });
+                if ctx.tier == Tier::Thorough {
+                    for c in &alpha {
+                        if ctx.mine() {
+                            cases.push(Case { tasks: vec![vec![*a], vec![*b, *c]], restart: None });
+                        }
                     }
                 }
             }
         }
-        if ctx.tier == Tier::Thorough {
-            for a in &alpha {
+        let small = core(&alpha);
+        if ctx.tier == Tier::Quick {
+            for a in &small {
                 for b in &alpha {
                     for c in &alpha {
+                        if ctx.mine() {
+                            cases.push(Case { tasks: vec![vec![*a], vec![*b, *c]], restart: None });
+                        }
+                    }
+                }
+            }
+        } else {
+            for a in &small {
+                for b in &small {
+                    for c in &small {
                         if ctx.mine() {
                             cases.push(Case { tasks: vec![vec![*a], vec![*b], vec![*c]], restart: None });
                         }
